@@ -283,7 +283,7 @@ def run(prop, tier, seed, t0):
         else:
             variants = [(label, bd[label], None)]
         ops = STEP_OPS[:8] if q else STEP_OPS
-        npairs = 2 if q else 4
+        npairs = 4 if q else 6
         for v in variants:
             for name in ops:
                 tasks.append(('vlib.props.c10', 'task_stepper', prop, seed, npairs, [v], {'ops': (name,)}))
